@@ -26,26 +26,30 @@ theorem Kept.quiet {w w' : World} (h : Kept w w') (hq : Quiet w) : Quiet w' := b
 theorem apply_kept (w : World) (k : Key) (a : Applied) : Kept w (w.apply k a).1 := by
   simp [Kept, World.apply, World.log, World.beforeWrite, World.tick]
 
+/-- registering a kind with the dynamic cache touches none of them. -/
+theorem watch_kept (w : World) (ow : Owner) (k : String) : Kept w (w.watch ow k) := ⟨rfl, rfl, rfl⟩
+
 /-- the object step never touches the schedule, the delegated phases or the remote references. -/
 theorem reconcilePhaseObject_kept (cfg : Cfg) (ow : Owner) (prev : List Prev) (p : PObj) (w : World) :
     Kept w (reconcilePhaseObject cfg ow prev p w).1 := by
-  simp only [reconcilePhaseObject]
+  have hk := watch_kept w ow p.kind
+  simp only [reconcilePhaseObject_eq]
   split
   · exact Kept.refl w
   · split
-    · split <;> exact Kept.refl w
-    · simp only [reconcileObject, reconcileObjectWith]
+    · split <;> exact hk
+    · simp only [reconcileObjectWith]
       split
-      · exact apply_kept _ _ _
+      · exact hk.trans (apply_kept _ _ _)
       · split
-        · exact Kept.refl w
-        · exact Kept.refl w
-        · exact Kept.refl w
+        · exact hk
+        · exact hk
+        · exact hk
         · split
-          · exact Kept.refl w
+          · exact hk
           · split
-            · exact apply_kept _ _ _
-            · exact Kept.refl w
+            · exact hk.trans (apply_kept _ _ _)
+            · exact hk
 
 /-- does the stored object of `p` pass the availability probe (absent = no). -/
 def probePass (cfg : Cfg) (ow : Owner) (st : Store) (p : PObj) : Bool :=
